@@ -54,47 +54,80 @@ def _explore_case(args):
     eng = E.Engine(feas_timeout_ms=opts.get('feas_timeout_ms', 3000),
                    assert_timeout_ms=opts.get('assert_timeout_ms', 60000),
                    max_paths=opts.get('max_paths', 200000),
-                   fork_outputs=opts.get('fork_outputs', False))
-    env = SymEnv(eng)
+                   fork_outputs=opts.get('fork_outputs', False),
+                   output_branches=case.get('output_branches', opts.get('output_branches', 'both')),
+                   input_zero_tests=case.get('input_zero_tests', opts.get('input_zero_tests', 'fork')))
     prof = _Profiler()
-    state = dict(first=True, path_hashes=set(), nontrivial=0, samples=[])
+    holder = {}
 
     def run(eng_):
-        env._reset_path()
-        q0 = eng.stats['assert_queries']
-        if state['first']:
+        env = SymEnv(eng)
+        holder['env'] = env
+        holder['q0'] = eng.stats['assert_queries']
+        if not holder.get('profiled'):
+            holder['profiled'] = True   # function coverage is collected on the first path of each case only
             sys.setprofile(prof)
         try:
             with contextlib.redirect_stdout(io.StringIO()):
-                r = mod.prog(env, case)
+                return mod.prog(env, case)
         finally:
-            if state['first']:
-                sys.setprofile(None)
-                state['first'] = False
-        h = hashlib.sha1(repr((case.get('id'), eng.decisions)).encode()).hexdigest()
-        if h not in state['path_hashes']:
-            state['path_hashes'].add(h)
-            if eng.stats['assert_queries'] > q0:
-                state['nontrivial'] += 1
-        if len(state['samples']) < 2:
-            state['samples'].append(dict(case=case.get('id'), decisions=[list(map(str, d)) for d in eng.decisions[:12]],
-                                         result=str(r)[:300] if r is not None else None))
-        return None
+            sys.setprofile(None)
 
-    err = None
-    inconclusive = []
-    try:
-        eng.explore(run)
-    except E.Inconclusive as ex:
-        inconclusive.append("case %s: %s" % (case.get('id'), ex.what))
-    except Exception:
-        err = traceback.format_exc()
-    inconclusive += ["case %s: %s" % (case.get('id'), w) for w in env.inconclusive]
-    return dict(case=case, stats=eng.stats, claims=env.claims, proved=env.proved,
-                violations=[v.to_json() for v in env.violations], inconclusive=inconclusive,
-                reach=env.reach, vacuous=env.vacuous, funcs=sorted(prof.funcs), error=err,
-                distinct=len(state['path_hashes']), nontrivial=state['nontrivial'], samples=state['samples'],
-                sample_queries=eng.sample_queries, wall=time.time() - t0)
+    def summarize(eng_, r, err):
+        env = holder.get('env')
+        dec = eng.decisions
+        h = hashlib.sha1(repr([(d[0], d[1].get_id() if hasattr(d[1], 'get_id') else d[1], d[2])
+                               for d in dec]).encode()).hexdigest()
+        rec = dict(hash=h, error=None if err in (None, 'abort') else err, aborted=(err == 'abort'),
+                   claims=env.claims if env else 0, proved=env.proved if env else 0,
+                   violations=[v.to_json() for v in env.violations] if env else [],
+                   inconclusive=list(env.inconclusive) if env else [], reach=env.reach if env else 0,
+                   vacuous=list(env.vacuous) if env else [], funcs=sorted(prof.funcs),
+                   nontrivial=bool(env and eng.stats['assert_queries'] > holder.get('q0', 0)),
+                   sample=dict(case=case.get('id'), decisions=[[d[0], str(d[1])[:100], str(d[2])] for d in dec[:10]],
+                               result=str(r)[:300] if r is not None else None),
+                   sample_queries=list(eng.sample_queries))
+        prof.funcs.clear()
+        eng.sample_queries = []
+        return rec
+
+    records = eng.explore(run, summarize, mode=opts.get('mode', 'fork'))
+    out = dict(case=case, stats={}, claims=0, proved=0, violations=[], inconclusive=[], reach=0, vacuous=[],
+               funcs=set(), error=None, distinct=0, nontrivial=0, samples=[], sample_queries=[], wall=0)
+    hashes = set()
+    sigs = set()
+    for rec in records:
+        for k, v in rec.get('stats', {}).items():
+            out['stats'][k] = out['stats'].get(k, 0) + v
+        if rec.get('error'):
+            if rec['error'].startswith('inconclusive'):
+                out['inconclusive'].append("case %s: %s" % (case.get('id'), rec['error']))
+            elif out['error'] is None:
+                out['error'] = rec['error']
+        if 'hash' not in rec:
+            continue
+        out['claims'] += rec['claims']
+        out['proved'] += rec['proved']
+        for v in rec['violations']:
+            if v['signature'] not in sigs:
+                sigs.add(v['signature'])
+                out['violations'].append(v)
+        out['inconclusive'] += ["case %s: %s" % (case.get('id'), w) for w in rec['inconclusive']]
+        out['reach'] += rec['reach']
+        out['vacuous'] += rec['vacuous']
+        out['funcs'].update(rec['funcs'])
+        if rec['hash'] not in hashes and not rec['aborted']:
+            hashes.add(rec['hash'])
+            if rec['nontrivial']:
+                out['nontrivial'] += 1
+        if len(out['samples']) < 2 and not rec['aborted']:
+            out['samples'].append(rec['sample'])
+        if len(out['sample_queries']) < 3:
+            out['sample_queries'] += rec['sample_queries'][:3]
+    out['distinct'] = len(hashes)
+    out['funcs'] = sorted(out['funcs'])
+    out['wall'] = time.time() - t0
+    return out
 
 
 def load_known():
@@ -146,6 +179,10 @@ def run_property(pid, tier, modname, cases, opts=None, level="model_checking", a
         with ctx.Pool(min(nproc, len(work)), maxtasksperchild=opts.get('maxtasksperchild', 8)) as pool:
             for r in pool.imap_unordered(_explore_case, work, chunksize=1):
                 results.append(r)
+                if os.environ.get("VERIF_PROGRESS"):
+                    print("[progress] case %s: paths=%s wall=%.1fs err=%s" % (
+                        r['case'].get('id'), r['stats'].get('paths'), r['wall'], bool(r['error'])), file=sys.stderr,
+                        flush=True)
     else:
         for w in work:
             results.append(_explore_case(w))
@@ -167,7 +204,8 @@ def run_property(pid, tier, modname, cases, opts=None, level="model_checking", a
         if r['error']:
             errors.append("case %s: %s" % (r['case'].get('id'), r['error']))
         inconclusive += r['inconclusive']
-        vacuous += ["case %s: %s" % (r['case'].get('id'), w) for w in r['vacuous']]
+        if r['claims'] > 0 and r['reach'] == 0 and r['vacuous']:
+            vacuous += ["case %s: %s" % (r['case'].get('id'), w) for w in r['vacuous'][:1]]
         for v in r['violations']:
             cand.append((r['case'], v))
 
@@ -250,6 +288,8 @@ def run_property(pid, tier, modname, cases, opts=None, level="model_checking", a
         solver_seconds=round(float(stats.get('solver_s', 0.0)), 2),
         forks=int(stats.get('forks', 0)),
         zero_tests_on_solver_outputs_not_forked=int(stats.get('zero_test_kept', 0)),
+        output_comparison_branches_cut=int(stats.get('output_branches_cut', 0)),
+        genericity_assumptions_on_input_coefficients=int(stats.get('generic_assumed', 0)),
         reachability_twins_sat=int(sum(r['reach'] for r in results)),
         functions_encoded=sorted(funcs),
         bounds=bounds or {},
